@@ -1,12 +1,12 @@
 SPECIFICATION Spec
 CONSTANTS
- NK = 2
- NV = 2
+ NK = 3
+ NV = 1
  MaxLayer = 2
  MaxH = 2
- PushNilRoot = TRUE
- MaxG = 0
- Swallow = FALSE
+ PushNilRoot = FALSE
+ MaxG = 8
+ Swallow = TRUE
  Stepwise = FALSE
-INVARIANTS EntryPrefix
+INVARIANTS LinksWithin
 CHECK_DEADLOCK FALSE
